@@ -140,9 +140,12 @@ class C03(core.Prop):
                 return None
             return "xml well-formedness differs on %r: expat %s, model status %s" % (c["doc"][:80], "ok" if obs["xml"] == 0 else obs.get("error"), st)
         exp = view(c["msg"])
-        wf, mnorm, mparse_impl, mforeign, mself, mre = mout
+        wf, mnorm, mparse_impl, mforeign, mself, mre, printable = mout
         if not wf:
             return "model does not consider the generated message constructible (wfb false): %s" % c["msg"]["kind"]
+        if not printable:
+            # the hypothesis of string_roundtrip: names are XML names, characters are characters XML can carry, no CR in text
+            return "the generated message is outside the domain of the string-level theorem (printable false): %s" % c["msg"]["kind"]
         if view_of_model([mnorm]) != exp:
             return "model normal form differs from the expected view"
         if view_of_model(mparse_impl) != exp:
